@@ -231,6 +231,25 @@ func cmdC20(args []string) {
 						}
 					}
 					d := core.ToDiag(p.Fset, c.Info.Name, w)
+					// a standard package the diagnostic relies on in *argument* position:
+					// strings.Map(unicode.ToTitle, s) -> strings.ToTitle(s) is only right for the real unicode
+					if c.Info.Name == "wrapperFunc" && len(real) > 0 {
+						for _, node := range nodes {
+							call, ok := node.(*ast.CallExpr)
+							if !ok || len(call.Args) == 0 {
+								continue
+							}
+							if sel, ok := call.Args[0].(*ast.SelectorExpr); ok {
+								if id, ok := sel.X.(*ast.Ident); ok && id.Name == "unicode" && (strings.Contains(w.Text, "strings.To") || strings.Contains(w.Text, "bytes.To")) {
+									if pn, ok := p.Info.Uses[id].(*types.PkgName); !ok || pn.Imported().Path() != "unicode" {
+										cand, real = []string{"unicode." + sel.Sel.Name}, nil
+										fake = []string{fmt.Sprintf("unicode.%s -> %v", sel.Sel.Name, p.Info.Uses[id])}
+									}
+								}
+							}
+							break
+						}
+					}
 					switch {
 					case len(cand) == 0:
 						add("inconclusive_no_candidate_spelling", 1)
